@@ -1465,6 +1465,34 @@ def sec_misc(m):
     lines.append(f"Definition UNREGISTER_CALLS : Z := {calls}%Z.")
     lines.append(f"Definition UNREGISTER_CALLS_PASSING_CLEAR : Z := {with_clear}%Z.")
 
+    # the names the normal attribute lookup finds on a Node / TypedNode (part FORWARD: these are never forwarded to the data object)
+    def class_names(cls):
+        out = []
+        for st in cls.body:
+            if isinstance(st, (ast.FunctionDef, ast.AsyncFunctionDef)):
+                out.append(st.name)
+            elif isinstance(st, ast.Assign):
+                for tg in st.targets:
+                    if isinstance(tg, ast.Name):
+                        if tg.id == "__slots__":
+                            if not (isinstance(st.value, ast.Tuple) and all(isinstance(e, ast.Constant) and isinstance(e.value, str) for e in st.value.elts)):
+                                raise Unsupported(f"{cls.name}.__slots__ is not a tuple of str literals")
+                            out.extend(e.value for e in st.value.elts)
+                        else:
+                            out.append(tg.id)
+        seen = []
+        for n in out:
+            if n not in seen:
+                seen.append(n)
+        return seen
+
+    ncls = class_def(node, "Node")
+    tncls = class_def(typed, "TypedNode")
+    if [b.id for b in tncls.bases if isinstance(b, ast.Name)] != ["Node"]:
+        raise Unsupported("TypedNode: expected the single base class Node")
+    nn = class_names(ncls)
+    lines.append("Definition NODE_ATTR_NAMES : list (list Z) := [" + "; ".join(text(n) for n in nn) + "].")
+    lines.append("Definition TYPED_NODE_EXTRA_ATTR_NAMES : list (list Z) := [" + "; ".join(text(n) for n in class_names(tncls) if n not in nn) + "].")
     return lines
 
 
